@@ -52,14 +52,14 @@ def oracle(c, outs):
 def extra(rep, cov, tier, rng):
     n = 0
     reps = 24 if tier == "quick" else 256
-    for cp in ALL:
+    for cp, dev in [(c, d) for c in ALL for d in (True, False)]:
         p = Par(cp)
         pk, sk = keygen(cp, bytes(rng.randrange(256) for _ in range(32)))
         m = b"one message"
-        kl = crate([("keypair_live", cp, [])] * reps, dev=True)
-        sl = crate([("signature_live", cp, [m, sk, 1])] * reps, dev=True)
-        sd = crate([("signature_live", cp, [m, sk, 0])] * 3, dev=True)
-        ds = crate([("draws_seeded", cp, [bytes(32), m])], dev=True)[0]
+        kl = crate([("keypair_live", cp, [])] * reps, dev=dev)
+        sl = crate([("signature_live", cp, [m, sk, 1])] * reps, dev=dev)
+        sd = crate([("signature_live", cp, [m, sk, 0])] * 3, dev=dev)
+        ds = crate([("draws_seeded", cp, [bytes(32), m])], dev=dev)[0]
         n += 2 * reps + 4
         bad = None
         need = 32 if p.mldsa else 64
@@ -79,11 +79,12 @@ def extra(rep, cov, tier, rng):
         if ds[:3] != [0, 0, 0] or ds[3] != 1:
             bad = "seeded key generation, deterministic signing or verification drew randomness (%s)" % ds
         if bad:
-            rep.violation(bad + " (%s)" % cp, {"cases": [{"fn": "randomness", "copy": cp, "args": []}]}, True)
+            rep.violation(bad + " (%s, %s build)" % (cp, "checked" if dev else "release"),
+                          {"cases": [{"fn": "keypair_live / signature_live (repeated %d times)" % reps, "copy": cp, "args": [], "profile": "dev" if dev else "release"}]}, True)
         hist = [0] * 256
         for r in kl:
             for b in r[3]: hist[b] += 1
-        cov.setdefault("seed_byte_histogram_minmax", {})[cp] = [min(hist), max(hist)]
+        cov.setdefault("seed_byte_histogram_minmax", {})[cp + ("/checked" if dev else "/release")] = [min(hist), max(hist)]
     import subprocess
     rc = subprocess.run("grep -rn 'thread_rng\\|try_fill_bytes' /repo/src --include=*.rs | grep -v verif_hooks | wc -l", shell=True, stdout=subprocess.PIPE)
     cov["advisory_rng_call_sites"] = rc.stdout.decode().strip()
